@@ -16,6 +16,9 @@ pub enum AOp {
     /// manager `m` (0 = opened first, 1 = opened after manager 0's first writes) stores `len` bytes
     Write { m: u8, len: u32 },
     Compact { m: u8 },
+    /// manager `m` opens the archives of the directory again (`open_all`), taking over what the
+    /// files hold by now
+    Reopen { m: u8 },
 }
 
 #[derive(Debug, Clone, Serialize, Deserialize)]
@@ -30,7 +33,7 @@ pub fn strategy() -> BoxedStrategy<ACase> {
     let len = prop_oneof![4 => 0u32..2000, 3 => 2000u32..200_000, 2 => 400_000u32..1_600_000];
     // manager 0 only compacts (a manager that appends after another handle did would overwrite the
     // other's bytes: two writers on one archive are outside what the code supports)
-    let op = prop_oneof![6 => len.clone().prop_map(|len| AOp::Write { m: 1, len }), 3 => (0u8..2).prop_map(|m| AOp::Compact { m })];
+    let op = prop_oneof![6 => len.clone().prop_map(|len| AOp::Write { m: 1, len }), 3 => (0u8..2).prop_map(|m| AOp::Compact { m }), 2 => (0u8..2).prop_map(|m| AOp::Reopen { m })];
     (proptest::collection::vec(len, 0..4), proptest::collection::vec(op, 1..8), any::<u64>()).prop_map(|(first, ops, seed)| ACase { first, ops, seed }).boxed()
 }
 
@@ -72,14 +75,27 @@ pub fn check(c: &ACase) -> Verdict {
         Err(e) => return Verdict::fail("C18:archive-compact:second-manager-cannot-open", e),
     };
     let (mut compacted_behind, mut appended) = (false, 0u64);
+    let (mut reopened_behind, mut compacted_after_reopen) = (false, false);
     for (n, op) in c.ops.iter().enumerate() {
         match op {
             AOp::Write { len, .. } => {
                 store(&mut m1, 1, *len, &mut objs, &mut r);
                 appended += u64::from(*len);
             }
+            AOp::Reopen { m } => {
+                let res = if *m == 0 { rt.block_on(m0.open_all()) } else { rt.block_on(m1.open_all()) };
+                if let Err(e) = res {
+                    return Verdict::fail("C18:archive-compact:open_all-again-fails", format!("op #{n}: {e}"));
+                }
+                if *m == 0 && appended > 0 {
+                    reopened_behind = true;
+                }
+            }
             AOp::Compact { m } => {
                 let res = if *m == 0 { m0.compact() } else { m1.compact() };
+                if *m == 0 && reopened_behind {
+                    compacted_after_reopen = true;
+                }
                 if *m == 0 && appended > 0 {
                     compacted_behind = true;
                 }
@@ -128,5 +144,7 @@ pub fn check(c: &ACase) -> Verdict {
     Verdict::pass()
         .nontrivial(compacted_behind && !objs.is_empty())
         .class_if(compacted_behind, "compact-by-a-manager-that-did-not-see-the-appends")
+        .class_if(reopened_behind, "first-manager-opens-the-grown-archives-again")
+        .class_if(compacted_after_reopen, "compact-after-opening-the-grown-archives-again")
         .class_if(appended > 1_048_576, "appended>1MiB-behind-the-first-manager")
 }
